@@ -24,7 +24,9 @@ import (
 
 const importPath = "github.com/honeytrap/honeytrap/verifyield"
 
-var names = map[string]bool{"Lock": true, "RLock": true, "Load": true, "Store": true, "LoadOrStore": true, "LoadAndDelete": true, "CompareAndSwap": true, "Swap": true, "Write": true}
+var names = map[string]bool{"Lock": true, "RLock": true, "Load": true, "Store": true, "LoadOrStore": true, "LoadAndDelete": true, "CompareAndSwap": true, "Swap": true, "Write": true,
+	// blocking points of a handler: before it reads, closes or sends a request, others get a turn
+	"Read": true, "Close": true, "CloseWrite": true, "SendRequest": true, "Reply": true}
 
 // callsSync: the expression (not descending into function literals) contains a call to one of the names.
 func callsSync(n ast.Node) bool {
